@@ -538,6 +538,13 @@ class Ev:
                 h = self.attr_hook(self, e)
                 if h is not NotImplemented:
                     return h
+            if e.attr in ("numerator", "denominator", "real", "imag"):
+                try:
+                    base = self.ev(e.value)
+                except Undecided:
+                    base = None
+                if isinstance(base, (int, float, Fr)) and not isinstance(base, bool) and hasattr(base, e.attr):
+                    return getattr(base, e.attr)                   # parts of a concrete number
             raise Undecided("attribute " + U(e))
         if isinstance(e, ast.Lambda):
             params = [a.arg for a in e.args.args]
